@@ -29,8 +29,8 @@ var errInj = errors.New("injected read fault")
 type faultSrc struct {
 	data   []byte
 	n      int  // calls so far
-	failK  int  // 0: never
-	only   bool // fail only call failK (otherwise from failK on)
+	failK  int   // 0: never
+	mode   fmode // which calls fail and what a failing call returns
 	fired  bool
 	labels *[]label // if non-nil, every call is labelled
 }
@@ -40,16 +40,47 @@ type label struct {
 	kind  byte   // 'r' scanner refill, 'p' raw probe, 'b' stream body through DecodeStream, 'l' refill while resolving an indirect /Length, 'c' scanner Discard copy, 'u' unclassified
 }
 
-func (f *faultSrc) arm(k int, only bool) { f.n, f.failK, f.only, f.fired = 0, k, only, false }
+// fault modes: the property's two (fail from the k-th call on / only the k-th
+// call, returning (0, err)) and three one-shot modes in which the failing call
+// delivers data together with the error, as the io.ReaderAt contract allows
+type fmode int
+
+const (
+	fmFrom fmode = iota // calls k, k+1, ... return (0, err)
+	fmOnly              // call k returns (0, err)
+	fmHalf              // call k returns half of the bytes and err
+	fmFull              // call k returns all the bytes and err
+	fmOne               // call k returns one byte and err
+)
+
+var fmodes = []fmode{fmFrom, fmOnly, fmHalf, fmFull, fmOne}
+
+func (m fmode) String() string { return [...]string{"from", "only", "half", "full", "one"}[m] }
+
+func (f *faultSrc) arm(k int, m fmode) { f.n, f.failK, f.mode, f.fired = 0, k, m, false }
 
 func (f *faultSrc) ReadAt(p []byte, off int64) (int, error) {
 	f.n++
 	if f.labels != nil {
 		*f.labels = append(*f.labels, classifyCaller())
 	}
-	if f.failK > 0 && (f.n == f.failK || (!f.only && f.n > f.failK)) {
+	if f.failK > 0 && (f.n == f.failK || (f.mode == fmFrom && f.n > f.failK)) {
 		f.fired = true
-		return 0, errInj
+		avail := 0
+		if off >= 0 && off < int64(len(f.data)) {
+			avail = min(len(p), len(f.data)-int(off))
+		}
+		n := 0
+		switch f.mode {
+		case fmHalf:
+			n = avail / 2
+		case fmFull:
+			n = avail
+		case fmOne:
+			n = min(1, avail)
+		}
+		copy(p[:n], f.data[off:])
+		return n, errInj
 	}
 	if off < 0 || off >= int64(len(f.data)) {
 		return 0, io.EOF
